@@ -280,10 +280,27 @@ def cached_print_assumptions(prop_files, names, closure):
     return pa, raw
 
 
+def strip_coq_comments(txt):
+    """Remove (nested) Coq comments; string literals are left alone (property files have none containing '(*')."""
+    out, depth, i = [], 0, 0
+    while i < len(txt):
+        if txt.startswith("(*", i):
+            depth += 1
+            i += 2
+        elif txt.startswith("*)", i) and depth > 0:
+            depth -= 1
+            i += 2
+        else:
+            if depth == 0:
+                out.append(txt[i])
+            i += 1
+    return "".join(out)
+
+
 def theorem_names(prop_files):
     names = []
     for pf in prop_files:
-        txt = open(os.path.join(COQ, "Properties", pf + ".v")).read()
+        txt = strip_coq_comments(open(os.path.join(COQ, "Properties", pf + ".v")).read())
         names += re.findall(r"^\s*Theorem\s+([A-Za-z0-9_']+)", txt, flags=re.M)
     return names
 
